@@ -146,7 +146,17 @@ class Inductor(Entity):
         self._last_arrival_time = now
 
         if self._can_forward(now):
-            return self._forward(event, now)
+            if self._queue.is_empty():
+                return self._forward(event, now)
+            # Requests already buffered go first (arrival order): the slot goes
+            # to the head of the queue and the new arrival takes its place.
+            head = self._queue.pop()
+            if head is not None and self._queue.push(event):
+                self._queued += 1
+                result = self._forward(head, now)
+                result.extend(self._ensure_poll_scheduled(now))
+                return result
+            raise RuntimeError("Queue reported non-empty but could not swap its head")
 
         # Queue the event
         if self._queue.push(event):
